@@ -345,6 +345,31 @@ def free_running(cell):
 
 PARTS = {'level': level, 'one': one, 'monitor': monitor, 'free_running': free_running}
 
+SCHED_NOTE = (' + exhaustive enumeration of the thread interleavings (cooperative baton scheduler, one pre-emption, every scheduling point of the base run as '
+              'first pre-emption, each thread compared bit for bit with its solo run) of the thread bodies that exercise this property\'s code: ')
+
+
+def explore_sets(ctx, sets):
+    """E4 inside the check of another property: the body sets that exercise that property's code, one pre-emption, every point of the base run
+    as first pre-emption (a wrong value computed only under a particular interleaving is a wrong value of that property too)"""
+    cells = []
+    for bs, gran in sets:
+        n = len(BODYSETS[bs])
+        orders = list(itertools.permutations(range(n)))
+        if ctx.tier == 'quick' and gran == 'line' and len(set(BODYSETS[bs])) == 1:
+            orders = orders[:1]         # the threads run the same body: quick explores one hand-over order at line granularity
+        for order in orders:
+            H.restore_pristine()
+            bodies, sw = make_bodies(bs)
+            base = sched.Run(bodies, {}, order, gran)
+            base.run()
+            for i in range(len(base.points)):
+                cells.append([bs, list(order), i, 1, gran])
+    ctx.run_part('level', cells)
+    ctx.extra['schedule_sets'] = [f'{bs} ({gran})' for bs, gran in sets]
+    ctx.extra['schedule_cells'] = len(cells)
+    ctx.extra['preemption_bound_completed'] = 1
+
 
 def explore(ctx):
     from mc import core
